@@ -115,7 +115,7 @@ type interpreter struct {
 	pcSet     map[int]bool
 	keptUnknown int
 	watch     map[*value]string
-	watchHits []string
+	watchHits []watchHit
 
 	mapOrderNondet bool
 	sched          *scheduler
@@ -1028,16 +1028,89 @@ func (i *interpreter) noteFunc(fn *ssa.Function, inf *fnInfo) {
 
 func (i *interpreter) noteStub(s string) { i.stubs[s] = true }
 
-func (i *interpreter) noteStore(p *value) {
+// watchHit: a store into a watched cell; changed tells whether the stored value differs from the old one
+// (value-level frame conditions count only those; race-level ones count every store).
+type watchHit struct {
+	what    string
+	changed bool
+}
+
+func (i *interpreter) noteStore(p *value) { i.noteStoreVal(p, bad{}) }
+
+func (i *interpreter) noteStoreVal(p *value, nv value) {
 	if i.watch != nil {
 		if what, ok := i.watch[p]; ok {
 			site := ""
 			if i.curFrame != nil {
 				site = i.curFrame.site()
 			}
-			i.watchHits = append(i.watchHits, what+" written at "+site)
+			i.watchHits = append(i.watchHits, watchHit{what + " written at " + site, !sameStored(*p, nv)})
 		}
 	}
+}
+
+// sameStored: is storing b into a cell that holds a a no-op at the value level? Conservative: false when unsure.
+func sameStored(a, b value) (same bool) {
+	defer func() {
+		if recover() != nil {
+			same = false
+		}
+	}()
+	switch x := a.(type) {
+	case nil:
+		return b == nil
+	case *smt.Term:
+		y, ok := b.(*smt.Term)
+		return ok && x == y
+	case structure:
+		y, ok := b.(structure)
+		if !ok || len(x) != len(y) {
+			return false
+		}
+		for k := range x {
+			if !sameStored(x[k], y[k]) {
+				return false
+			}
+		}
+		return true
+	case array:
+		y, ok := b.(array)
+		if !ok || len(x) != len(y) {
+			return false
+		}
+		for k := range x {
+			if !sameStored(x[k], y[k]) {
+				return false
+			}
+		}
+		return true
+	case []value:
+		y, ok := b.([]value)
+		return ok && len(x) == len(y) && cap(x) == cap(y) && unsafe.SliceData(x) == unsafe.SliceData(y)
+	case iface:
+		y, ok := b.(iface)
+		if !ok {
+			return false
+		}
+		if x.t == nil || y.t == nil {
+			return x.t == nil && y.t == nil
+		}
+		return types.Identical(x.t, y.t) && sameStored(x.v, y.v)
+	case *symStr:
+		y, ok := b.(*symStr)
+		if !ok || len(x.b) != len(y.b) {
+			return false
+		}
+		for k := range x.b {
+			if !sameStored(x.b[k], y.b[k]) {
+				return false
+			}
+		}
+		return true
+	case bad, *closure, tuple:
+		return false
+	}
+	return a == b // comparable scalars, strings, pointers; a panic (uncomparable) means "unsure"
 }
 
 func (i *interpreter) nextChanID() int {
